@@ -374,7 +374,7 @@ func (sc *serverConn) readLoop() (err error) {
 		case FrameSettings:
 			st := fr.Body().(*Settings)
 			if !st.IsAck() { // if it has ack, just ignore
-				sc.handleSettings(st)
+				sc.handleSettings(fr)
 				// forward to handleStreams so the INITIAL_WINDOW_SIZE delta is
 				// applied to open streams in frame order.
 				sc.reader <- fr
@@ -1659,8 +1659,13 @@ func (sc *serverConn) writeLoop() {
 	}
 }
 
-func (sc *serverConn) handleSettings(st *Settings) {
-	st.CopyTo(&sc.clientS)
+func (sc *serverConn) handleSettings(recv *FrameHeader) {
+	// A SETTINGS frame changes the parameters it names and leaves the others as
+	// they are (RFC 7540 6.5.3). The decoded body starts out from the defaults,
+	// so copying it over would put every parameter the frame does not mention
+	// back to its default. The payload is applied on top of what the peer has
+	// set so far instead; it was validated when the frame was read.
+	_ = sc.clientS.Read(recv.payload)
 	sc.enc.SetMaxTableSize(sc.clientS.HeaderTableSize())
 
 	// The per-stream send windows are adjusted in handleStreams, where the
